@@ -54,6 +54,9 @@ def _to_str(v):
     raise q.NotFoldable("to_unicode of %r" % (v,))
 
 
+PURE_TEXT_METHODS = {"join", "encode", "decode", "lower", "upper", "strip", "lstrip", "rstrip", "startswith", "endswith", "split", "rsplit", "partition",
+                     "rpartition", "replace", "format", "title", "capitalize", "zfill", "hex", "isdigit", "find", "count"}
+
 # tornado.escape conversions (documented behaviour: bytes/None pass through utf8, str/None pass through to_unicode)
 TEXT_CONVERSIONS = {"utf8": _utf8, "native_str": _to_str, "to_unicode": _to_str, "_unicode": _to_str}
 
@@ -222,6 +225,78 @@ def _fold3(e: ast.AST, known: Dict[str, object]):
         return last
     if isinstance(e, ast.UnaryOp) and isinstance(e.op, ast.Not):
         return not _fold3(e.operand, known)
+    if isinstance(e, ast.Name) and e.id not in known and e.id.endswith("]") and "[" in e.id:
+        base, _, key = e.id.partition("[")
+        if isinstance(known.get(base), frozenset):
+            try:
+                k = ast.literal_eval(key[:-1])
+            except Exception:
+                raise q.NotFoldable(e.id)
+            if k in known[base]:
+                return "<%s>" % k
+            raise q.NotFoldable("missing key %r" % (k,))
+    if isinstance(e, (ast.GeneratorExp, ast.ListComp, ast.SetComp)) and len(e.generators) == 1 and isinstance(e.generators[0].target, ast.Name) and not e.generators[0].is_async:
+        g = e.generators[0]
+        seq = _fold3(g.iter, known)
+        if not isinstance(seq, (tuple, frozenset, str, bytes, range)):
+            raise q.NotFoldable("comprehension over a non-sequence")
+        out_items = []
+        for item in seq:
+            k2 = dict(known)
+            k2[g.target.id] = item
+            if all(_fold3(c, k2) for c in g.ifs):
+                out_items.append(_fold3(e.elt, k2))
+        return tuple(out_items)
+    if isinstance(e, ast.Call) and isinstance(e.func, ast.Name) and e.func.id in ("sum", "len", "any", "all", "tuple", "list", "sorted") and len(e.args) == 1 and not e.keywords and isinstance(e.args[0], (ast.GeneratorExp, ast.ListComp)):
+        items = _fold3(e.args[0], known)
+        return {"sum": sum, "len": len, "any": any, "all": all, "tuple": tuple, "list": tuple, "sorted": lambda x: tuple(sorted(x))}[e.func.id](items)
+    if isinstance(e, ast.JoinedStr):
+        out = ""
+        for v in e.values:
+            if isinstance(v, ast.Constant):
+                out += v.value
+            elif isinstance(v, ast.FormattedValue) and v.format_spec is None:
+                x = _fold3(v.value, known)
+                out += {-1: format, 115: str, 114: repr, 97: ascii}[v.conversion](x)
+            else:
+                raise q.NotFoldable("f-string part")
+        return out
+    if isinstance(e, ast.Subscript):
+        base = _fold3(e.value, known)
+        if isinstance(base, frozenset):
+            raise q.NotFoldable("subscript of a set model")
+        if isinstance(e.slice, ast.Slice):
+            lo = _fold3(e.slice.lower, known) if e.slice.lower is not None else None
+            hi = _fold3(e.slice.upper, known) if e.slice.upper is not None else None
+            st = _fold3(e.slice.step, known) if e.slice.step is not None else None
+            try:
+                return base[lo:hi:st]
+            except Exception as ex:
+                raise q.NotFoldable(str(ex))
+        idx = _fold3(e.slice, known)
+        try:
+            return base[idx]
+        except Exception as ex:
+            raise q.NotFoldable(str(ex))
+    if isinstance(e, ast.Call) and isinstance(e.func, ast.Attribute) and e.func.attr == "get" and not e.keywords and 1 <= len(e.args) <= 2:
+        # the header-set model: presence is known, values are not (a present value is a non-empty marker string)
+        d = q.dotted(e.func.value)
+        if d is not None and isinstance(known.get(d), frozenset):
+            k = _fold3(e.args[0], known)
+            if k in known[d]:
+                return known.get("%s[%r]" % (d, k), "<%s>" % k)
+            return _fold3(e.args[1], known) if len(e.args) == 2 else None
+    if isinstance(e, ast.Call) and isinstance(e.func, ast.Attribute) and e.func.attr in PURE_TEXT_METHODS and not e.keywords:
+        recv = _fold3(e.func.value, known)
+        if isinstance(recv, (str, bytes)):
+            args = [_fold3(a, known) for a in e.args]
+            args = [list(a) if isinstance(a, tuple) and e.func.attr == "join" else a for a in args]
+            try:
+                r = getattr(recv, e.func.attr)(*args)
+            except Exception as ex:
+                raise q.NotFoldable(str(ex))
+            return tuple(r) if isinstance(r, list) else r
+        raise q.NotFoldable("method on non-text")
     if isinstance(e, ast.Call) and q.call_attr(e) in TEXT_CONVERSIONS and len(e.args) == 1 and not e.keywords:
         v = _fold3(e.args[0], known)
         return TEXT_CONVERSIONS[q.call_attr(e)](v)
